@@ -51,6 +51,10 @@ def build(spec):
         return hostile(spec[1])
     if t == 'R':
         return Record(spec[1])
+    if t == 'N':
+        return Pair(*[build(x) for x in spec[1]])
+    if t == 'G':
+        return range(spec[1])
     if t == 'M':
         import sys
         cls = getattr(sys.modules.get('__main__'), 'MainPoint', None) or _MainPointStandIn
@@ -127,6 +131,10 @@ class BadHashRuntime(object):
     """unhashable, but says so with another exception than TypeError (as a writable memoryview does with ValueError)"""
     def __hash__(self):
         raise RuntimeError('detached object has no stable identity to hash')
+
+
+import collections as _collections
+Pair = _collections.namedtuple('Pair', 'x y')       # a tuple subclass that cannot be built from ONE sequence argument
 
 
 class Record(object):
